@@ -26,7 +26,7 @@ MAX_PATHS = 4000
 
 
 class Path:
-    __slots__ = ("conds", "env", "kind", "value", "node", "calls")
+    __slots__ = ("conds", "env", "kind", "value", "node", "calls", "certain")
 
     def __init__(self, conds, env, kind, value, node, calls):
         self.conds: List[Tuple[ast.expr, bool]] = conds
@@ -35,6 +35,7 @@ class Path:
         self.value: Optional[ast.expr] = value  # with locals substituted
         self.node: Optional[ast.AST] = node
         self.calls: List[ast.Call] = calls  # statement-level calls executed on the path (substituted)
+        self.certain: bool = True  # set by consumers that decide which path a given value takes
 
     def cond_text(self) -> str:
         return " and ".join(("" if pol else "not ") + ast.unparse(t) for t, pol in self.conds) or "always"
@@ -201,6 +202,14 @@ class PathWalker:
     # -- walking -------------------------------------------------------------
     def paths(self, fn: ast.FunctionDef, env: Optional[Dict[str, ast.expr]] = None, depth: int = 0) -> List[Path]:
         out: List[Path] = []
+        if depth == 0 and self.mod is not None:
+            # normal form first: private single-expression helpers used inside conditions / arguments are expanded too
+            from .inline import normalize
+
+            try:
+                fn = normalize(self.mod, self.cls, fn, self.no_inline or None)
+            except Exception:  # noqa: BLE001
+                pass
         body = [s for s in fn.body if not (isinstance(s, ast.Expr) and isinstance(s.value, ast.Constant))]
         for conds, e, calls, kind, value, node in self.block(body, [], dict(env or {}), [], depth):
             out.append(Path(conds, e, kind, value, node, calls))
@@ -340,7 +349,9 @@ class PathWalker:
             for c, e, k, kind, value, node in self.block(list(st.body), conds + [(ast.Constant(value="<loop>"), True)], e_body, list(calls), depth):
                 if kind in ("return", "raise"):
                     yield c, e, k, kind, value, node
-            yield from cont(conds, e2, calls)
+            # control reaches the statements after a loop that can exit early only when no iteration took that exit
+            early = any(isinstance(x, (ast.Return, ast.Raise)) for x in ast.walk(st))
+            yield from cont(conds + ([(ast.Constant(value="<after-loop>"), True)] if early else []), e2, calls)
             return
         if isinstance(st, ast.Try):
             e_after = dict(env)
